@@ -189,6 +189,17 @@ static Cfg draw(Rng &r, const std::string &coars, const std::string &relax, size
     return c;
 }
 
+// Known weakness of the energy-minimising coarsening (reported to the lead, not part of this property): the damping
+// omega_j = (A P_t e_j, A D^-1 A P_t e_j) / |A D^-1 A P_t e_j|^2 can cancel a tentative column completely (e.g. an aggregate that is
+// a whole connected component: for [[5,-1],[-1,5]] omega = 1.25 and 1 - 0.8 omega = 0), the coarse matrix then has a zero row/column:
+// the direct coarse solver throws or the smoothed coarse level returns NaN.  Recognised from the recorded transfer operators.
+static bool vanishing_prolongation_column() {
+    for (auto &e : g_tape) { if (e.kind != 0 || !e.P) continue; const Mat &P = *e.P; std::vector<double> cm(P.ncols, 0.0); double gm = 0;
+        for (size_t i = 0; i < P.nrows; ++i) for (auto j = P.ptr[i]; j < P.ptr[i + 1]; ++j) { double v = std::fabs(P.val[j]); if (!(v <= cm[P.col[j]])) cm[P.col[j]] = v; if (v > gm) gm = v; }
+        for (double v : cm) if (v <= 1e-10 * gm) return true; }
+    return false;
+}
+static std::string build_failure_key(const std::string &coars, const std::exception &e);
 // stable key fragment from an exception text (digits dropped)
 static std::string exkey(const std::exception &e) { std::string s = e.what(), o; for (char ch : s) { if (o.size() >= 40) break; if (std::isdigit((unsigned char)ch)) continue; o += (ch == ' ' ? '_' : ch); } return o; }
 
@@ -204,6 +215,10 @@ template <class AMG> static std::vector<double> probe(const AMG &a, size_t n, ui
 }
 static bool finite_vec(const std::vector<double> &v) { for (double x : v) if (!std::isfinite(x)) return false; return true; }
 
+static std::string build_failure_key(const std::string &coars, const std::exception &e) {
+    if (coars == "smoothed_aggr_emin" && vanishing_prolongation_column()) return "coarse-matrix-singular:smoothed_aggr_emin:vanishing-prolongation-column";
+    return "exception:build:" + coars + ":" + exkey(e);
+}
 //---------------------------------------------------------------------------
 // oracles over one construction: tape + level list
 //---------------------------------------------------------------------------
@@ -320,7 +335,7 @@ static void sub_hier() {
             if (check_build(c, a, cfg, in.A, exact, b)) { if (b.P.size() >= 1) c.nontrivial();
                 vf::obs_add("coarsenings_seen", cfg.coars); vf::obs_max("max_levels_seen", (double)(b.P.size() + 1)); if (exact) vf::obs_sum("exact_hierarchies"); if (b.nonfinite) vf::obs_sum("hierarchies_with_nonfinite_transfer_operators");
                 vf::sample("hier", J().s("family", in.family).n("n", n).s("coarsening", cfg.coars).n("alpha", cfg.alpha).s("level_sizes", sizes(a)).bl("exact", exact).n("threads", omp_get_max_threads())); }
-        } catch (const std::exception &e) { c.fail("exception:build:" + cfg.coars + ":" + exkey(e), e.what()); }
+        } catch (const std::exception &e) { c.fail(build_failure_key(cfg.coars, e), e.what()); }
     }
 }
 
@@ -349,7 +364,7 @@ static void sub_synthetic() {
                 check_galerkin(c, e, alpha, true, COARS[ci]); curA = canon(*e.Ac); ++k; }
             c.check(k == g_rep.pr.size() && !g_rep.overrun, "policy:call-protocol:" + std::string(COARS[ci]), "number of coarse_operator calls differs from the number of supplied transfer operator pairs", J().n("calls", k).n("pairs", g_rep.pr.size()));
             if (k) c.nontrivial(); vf::obs_add("synthetic_coarse_operators", COARS[ci]);
-        } catch (const std::exception &e) { c.fail(std::string("exception:build:") + COARS[ci] + ":" + exkey(e), e.what()); }
+        } catch (const std::exception &e) { c.fail(build_failure_key(COARS[ci], e), e.what()); }
     }
 }
 
@@ -434,7 +449,7 @@ static void sub_rebuild() {
             }
             if (m >= 1) c.nontrivial(); vf::obs_add("rebuild_cells", cfg.coars + "/" + cfg.relax);
             vf::sample("rebuild", J().s("family", in.family).n("n", n).s("coarsening", cfg.coars).s("relax", cfg.relax).s("history", hist).s("level_sizes", sizes(a)).n("threads", omp_get_max_threads()));
-        } catch (const std::exception &e) { c.fail("exception:build:" + cfg.coars + ":" + exkey(e), e.what()); }
+        } catch (const std::exception &e) { c.fail(build_failure_key(cfg.coars, e), e.what()); }
     }
     // allow_rebuild = false: rebuild must refuse, nothing retained
     if (vf::selected("rebuild_refused", 0)) { Rng r(vf::case_seed("rebuild_refused", 0)); Case c("rebuild_refused", 0, J().s("what", "allow_rebuild=false"));
@@ -453,8 +468,9 @@ static void run_degenerate(const char *sub, long idx, const Csr<double> &A, cons
     g_tape.clear();
     try { AMGrec a(A.tie(), AMGrec::params(cfg.p)); dump_tape(); Built b; check_build(c, a, cfg, A, exact, b); c.nontrivial(); vf::obs_add("degenerate_families", fam);
         // the hierarchy of a valid (non-singular, diagonally dominant) matrix must also be applicable
-        std::vector<double> f(n, 1.0), x(n, 0.0); a.apply(f, x); c.check(finite_vec(x) || b.nonfinite, "apply:nonfinite-action:" + cfg.coars, "apply on a degenerate but valid matrix returned NaN/Inf", J().s("sizes", sizes(a)));
-    } catch (const std::exception &e) { c.fail("exception:build:" + cfg.coars + ":" + exkey(e), e.what()); }
+        std::vector<double> f(n, 1.0), x(n, 0.0); a.apply(f, x); bool emin_known = cfg.coars == "smoothed_aggr_emin" && vanishing_prolongation_column();
+        c.check(finite_vec(x) || b.nonfinite, emin_known ? "coarse-matrix-singular:smoothed_aggr_emin:vanishing-prolongation-column" : "apply:nonfinite-action:" + cfg.coars, "apply on a degenerate but valid matrix returned NaN/Inf", J().s("sizes", sizes(a)));
+    } catch (const std::exception &e) { c.fail(build_failure_key(cfg.coars, e), e.what()); }
     (void)r;
 }
 
